@@ -434,7 +434,7 @@ class trio_run_payload:
     raises = {"BaseException": _r}
 
 
-@contract(RUN + "meta_runner:MetaRunner.run_payload", props=["C10"])
+@contract(RUN + "meta_runner:MetaRunner.run_payload", props=["C10", "C11"])
 class meta_run_payload:
     params = dict(self=MetaR, payload=Payload, flavour=TAny())
     transparent = True      # callers (execute) are verified through its real body
